@@ -2,7 +2,7 @@
    The four builtins are modelled as wrappers over a matching engine; the engine here is the executable reference engine of Regex.v
    (regex-lite itself is trusted and compared with it on the generated subset). The theorems hold for every pattern AST, haystack and fuel scale. *)
 Require Import ZArith NArith Bool List Arith. Import ListNotations.
-Require Import F64 Dec Types Builtins BuiltinFacts Regex RegexFacts.
+Require Import F64 Dec Types Builtins BuiltinFacts Regex RegexFacts RegexLit.
 
 Theorem C18_is_match_iff_find : forall k r s, re_is_match k r s = negb (is_nil (re_find k r s)).
 Proof. exact is_match_iff_find. Qed.
@@ -23,6 +23,19 @@ Theorem C18_literal_is_match_is_contains : forall k x s, (1 <= k)%nat -> re_is_m
 Proof. exact literal_is_match_is_contains. Qed.
 Theorem C18_literal_first_match_is_the_literal : forall k x s y rest, (1 <= k)%nat -> re_find k (lit x) s = y :: rest -> y = x.
 Proof. exact literal_first_match_is_the_literal. Qed.
+(* ... like count: re_find on an escaped non-empty literal returns exactly count(s, x) matches, each of them the literal; and like replace with plain
+   replacement text: re_replace without limit is replace(s, x, t) - for every haystack, literal and replacement (count_sub / replace_sub are the
+   models of the count and replace builtins, C15) *)
+Theorem C18_literal_find_is_count : forall k, (1 <= k)%nat -> forall x, x <> [] -> forall s,
+  length (re_find k (lit x) s) = count_sub (S (length s)) x s /\ Forall (fun y => y = x) (re_find k (lit x) s).
+Proof. exact literal_find_is_count. Qed.
+Theorem C18_literal_replace_is_replace : forall k, (1 <= k)%nat -> forall x, x <> [] -> forall s t, re_replace k (lit x) s t 0 = replace_sub (S (length s)) x t s.
+Proof. exact literal_replace_is_replace. Qed.
+Theorem C18_count_replace_builtins : forall off h n t,
+  call_builtin off (A [99;111;117;110;116]%Z) [VStr h; VStr n] = BOk (vnat (count_sub (S (length h)) n h)) /\
+  call_builtin off (A [114;101;112;108;97;99;101]%Z) [VStr h; VStr n; VStr t] = BOk (VStr (replace_sub (S (length h)) n t h)).
+Proof. intros. split; reflexivity. Qed.
+Print Assumptions C18_literal_find_is_count. Print Assumptions C18_literal_replace_is_replace.
 Print Assumptions C18_is_match_iff_find. Print Assumptions C18_literal_is_match_is_contains.
 Example C18_example : re_find 1 (RSeq (RChar 97) (RStar (RGroup 1 (RAlt (RChar 98) (RChar 99))))) [120;97;98;99;97;100]%N = [[97;98;99]%N; [97]%N] /\
   re_capture 1 (RSeq (RChar 97) (RStar (RGroup 1 (RAlt (RChar 98) (RChar 99))))) [120;97;98;99;97;100]%N = [[97;98;99]%N; [99]%N].
